@@ -1219,7 +1219,7 @@ fn prog_source(p: &Prog) -> (String, ProgLines) {
                 i = i
             ),
             "sbmulti" => format!("StructuredBuffer<{}> g{}x[2], g{};", a, i, i),
-            "sbns" => format!("namespace NG{} {{ StructuredBuffer<{}> g{}; }}", i, a, i),
+            "sbns" => format!("namespace NG {{ StructuredBuffer<{}> g{}; }}", a, i), // every such site reopens `NG`
             "sbst" => format!("static StructuredBuffer<{}> g{};", a, i),
             "sbex" => format!("extern StructuredBuffer<{}> g{};", a, i),
             // a local variable of buffer type: declared in main (below); like a parameter it is not a buffer that exists
@@ -1289,7 +1289,7 @@ fn prog_source(p: &Prog) -> (String, ProgLines) {
             "gi" => s.lines.push(format!("static {} gi{} = {}.Load<{}>(0);", n, i, var, targ(n))),
             "pd" => s.lines.push(format!("float fpd{}(uint q = sizeof({}.Load<{}>(0)));", i, var, targ(n))),
             "pf" => s.lines.push(format!("void fpf{}();", i)),
-            "ns" => s.lines.push(format!("namespace NF{} {{ void f() {{ {} }} }}", i, stmts(site, i, var, n))),
+            "ns" => s.lines.push(format!("namespace NF {{ void f{}() {{ {} }} }}", i, stmts(site, i, var, n))), // reopened
             "lp" => s.lines.push(format!(
                 "void flp{}() {{ for (uint k = 0; k < 2; ++k) {{ if (k == 1) {{ {} }} }} }}", i, stmts(site, i, var, n)
             )),
